@@ -1029,6 +1029,16 @@ func (s *State) evalForInteger(fe *ast.ForExpression, start *int64, end int64, n
 		}
 		// else (postfix on the variable, function literal in the body): use a regular variable.
 	}
+	if ptr != nil && endValue > startValue {
+		// The loop variable is a variable of the program: once the loop is left (normally, by break, return or an error)
+		// it holds the value it had in the last iteration, like it does when it isn't kept in a register.
+		defer func() {
+			if r := recover(); r != nil {
+				panic(r)
+			}
+			s.env.Set(name, object.Integer{Value: *ptr})
+		}()
+	}
 	for i := startValue; i < endValue; i++ {
 		if ptr == nil && name != "" {
 			s.env.Set(name, object.Integer{Value: int64(i)})
